@@ -7,6 +7,7 @@ SPEC = {
         {"comp": "pending_acks", "module": "QV.Model.PendingAcks", "quick": 200, "thorough": 6000},
         {"comp": "ack_frequency", "module": "QV.Model.AckFrequency", "quick": 1000, "thorough": 30000},
         {"comp": "sim_c03", "module": "QV.Sys.MonC04", "quick": 60, "thorough": 1500},
+        {"comp": "sim_c03h", "module": "QV.Sys.MonC03", "quick": 112, "thorough": 3000},
     ],
     "assumptions": [
         "CidQueue ring-buffer arithmetic is proved for the compiled value CidQueue::LEN = 5 (Props/C03.v instantiates the lemma with the generated constant by reflexivity, so another value breaks the build)",
